@@ -22,6 +22,16 @@ Oracle: per transport the model keeps {id: Channel object} of channels that were
 closed/dropped. Every id handed out is an int in [0, 2^24), is not in that set at allocation time,
 both ends agree (remote_chanid of one end == chanid of the other), and afterwards every modelled
 live channel is still the object registered under its id (nothing was overwritten).
+
+Second engine ("pup"): ONE production transport (client or server role) against a raw puppet peer that answers nothing by
+itself.  Rules: start a local open and leave it unanswered (up to 3 at a time) / answer one of them (confirmation or failure, in
+any order, as late as the history likes) / peer open / close (local first, peer first) / counter jump (2^24-1, 2^24-2, onto or
+just below the id of an established channel or of an UNANSWERED open) / stray OPEN_CONFIRMATION or OPEN_FAILURE naming the id of
+an established channel or an id nobody is opening / data probe.  Oracle without the transport's private table: the harness'
+own list of Channel OBJECTS handed out and not closed (get_id() distinct and unchanged) + the ids of the unanswered opens as
+seen on the wire (CHANNEL_OPEN sender field): a new id (on the wire) is in 24 bits and in neither set; and data routing: bytes
+the puppet addresses to the id of live channel A come out of A and of no other live channel (after every open, confirmation,
+stray message and data rule).
 """
 import gc
 import threading
@@ -39,7 +49,10 @@ RULE = (
     "rules local open, peer open (forwarded-tcpip), close client end/server end/both, drop reference, counter jump (to 2^24-1, 2^24-2, "
     "onto or just below a live id), gated race (peer open held in check_channel_request while a local open runs on the same "
     "transport), free race (two threads); non-trivial = an allocation after the counter wrapped / was moved onto live ids, or >= 3 "
-    "channels live at an allocation; distinct by the operation list"
+    "channels live at an allocation; distinct by the operation list. Second machine (one transport, client|server role, vs a raw puppet peer): rules start local "
+    "open (left unanswered, <=3 pending), answer a pending open (confirm/failure, any order), peer open, close local-first/peer-first, counter jump (2^24-1, "
+    "2^24-2, onto/below an established id, onto/below the id of an unanswered open), stray OPEN_CONFIRMATION/OPEN_FAILURE for an established or unused id, data "
+    "probe; oracle on the harness' own live Channel objects + wire ids of unanswered opens + data routing (bytes sent to A's id come out of A only)"
 )
 
 TO = 15.0
@@ -789,11 +802,14 @@ def run(ctx):
             # Once the safety-net budget is exhausted the machine turns into a no-op, which hypothesis reports as
             # flaky data generation when it happens while a failing history is being shrunk/replayed. That says
             # nothing about paramiko: keep the (unshrunk) failure if there is one, else the run is inconclusive.
+            # The same report without the budget: the race rules depend on thread timing, so a history that showed a violation
+            # need not show it again when hypothesis re-executes it.  What was observed stays a violation; it is kept unshrunk.
             import hypothesis.errors as HE
 
-            if not (ctx.budget_hit and isinstance(e, HE.Flaky)):
+            flaky = tuple(getattr(HE, n) for n in ("Flaky", "FlakyStrategyDefinition", "FlakyFailure", "FlakyReplay") if hasattr(HE, n))
+            if not isinstance(e, flaky) or (ctx._last_fail is None and not ctx.budget_hit):
                 raise
-            ctx.inconc("budget-hit-while-shrinking")
+            ctx.inconc("budget-hit-while-shrinking" if ctx.budget_hit else "failure-not-reproduced-on-re-execution")
             if ctx._last_fail is not None and ctx._last_fail[0] not in ctx.unknown and ctx._last_fail[0] not in ctx.known_hits:
                 ctx._record_unknown(*ctx._last_fail)
 
